@@ -69,11 +69,49 @@ def find_class(ctx):
     raise AnalysisError('anchor vanished: pid_interfaces:PIDInterface')
 
 
-def method(cls, name):
-    for s in cls.body:
-        if isinstance(s, ast.FunctionDef) and s.name == name:
-            return s
-    raise AnalysisError('anchor vanished: PIDInterface.%s' % name)
+def method(cls, name, raw=False):
+    meths = {s.name: s for s in cls.body if isinstance(s, ast.FunctionDef)}
+    if name not in meths:
+        raise AnalysisError('anchor vanished: PIDInterface.%s' % name)
+    # a prior that hands over to a sibling (`return self.other_prior(name, value)`) is analysed with the sibling's body in place
+    return meths[name] if raw else util.inline_tail_self_calls(meths[name], meths)
+
+
+SUPPORT = {
+    'uniform': lambda pt: pt[a] < pt[x] < pt[b],
+    'gaussian': lambda pt: pt[b] > 0,
+    'exponential': lambda pt: pt[a] > 0 and pt[x] > 0,
+    'gamma': lambda pt: pt[a] > 0 and pt[b] > 0 and pt[x] > 0,
+    'beta': lambda pt: pt[a] > 0 and pt[b] > 0 and 0 < pt[x] < 1,
+    'log-uniform': lambda pt: 0 < pt[a] < pt[x] < pt[b],
+    'log-gaussian': lambda pt: pt[b] > 0 and pt[x] > 0,
+}
+
+
+def boundary_points(fam, cases, points):
+    """points at which a value test of the code changes sides: every comparison of the value or of a distribution parameter with a number
+    gives, for each sample point, the point with that quantity set to the number (kept when it is inside the support)"""
+    out = []
+    syms = {str(a): a, str(x): x, str(b): b}
+    for c in cases:
+        for cond, _ in c.conds:
+            for rel in cond.atoms(sp.core.relational.Relational):
+                l, r = rel.args
+                for s_, v_ in ((l, r), (r, l)):
+                    if s_.is_Symbol and str(s_) in syms and v_.is_number:
+                        for pt in points:
+                            q = dict(pt)
+                            key = [k_ for k_ in q if str(k_) == str(s_)]
+                            if not key:
+                                continue
+                            q[key[0]] = sp.nsimplify(v_)
+                            try:
+                                inside = bool(SUPPORT[fam](q))
+                            except Exception:
+                                inside = False
+                            if inside and q not in out and q not in points:
+                                out.append(q)
+    return out
 
 
 def check_density(ctx, cls):
@@ -120,6 +158,7 @@ def check_density(ctx, cls):
         except symx.Unsupported as e:
             raise AnalysisError('%s: %s' % (meth, e))
         density, points = dens[fam]
+        points = list(points) + boundary_points(fam, cases, points)
         problems = []
         n_in = 0
         for pt in points:
@@ -153,6 +192,7 @@ def check_density(ctx, cls):
             n_in += 1
             if not (got.is_number and abs(got - exp) < sp.Float('1e-20')):
                 problems.append('at %s returns %s, log-density is %s' % ({str(k): str(v) for k, v in pt.items() if str(k) != 'PRIOR'}, sp.N(got, 8), sp.N(exp, 8)))
+        ctx.evaluations = getattr(ctx, 'evaluations', 0) + len(points)
         ctx.ob('R16.1-density', fam, not problems and n_in == len(points), where,
                '%s returns log(%s) inside the support, far tails included (the density is positive there, however small)' % (meth, density),
                '; '.join(problems[:3]))
